@@ -102,6 +102,12 @@ var c04Hostile = []string{
 	`var u#K# = new Map([[1, F("#K#")]]);`,
 	`var u#K# = Promise.resolve().then(() => $("#K#", "microtask"));`,
 	`var u#K# = typeof undeclaredGlobal#K# === "undefined" ? F("#K#") : 0;`,
+	// property reads that are known to be free of side effects on the real globals, on local bindings that shadow them
+	`var Math = GETP("#K#", "PI"); var u#K# = Math.PI;`,
+	`var Math = GETP("#K#", "E"); const u#K# = Math.E;`,
+	`var Reflect = GETP("#K#", "apply"); var u#K# = Reflect.apply;`,
+	`var Reflect = GETP("#K#", "ownKeys"); let u#K# = Reflect.ownKeys;`,
+	`var Math = GETP("#K#", "LN2"); var u#K# = [Math.LN2];`,
 }
 
 // statements whose removal is unobservable (may be dropped or kept)
@@ -113,6 +119,7 @@ var c04Pure = []string{
 
 const c04Helpers = `
 export function F(k) { $(k, "F"); return k; }
+export function GETP(k, p) { return {get [p]() { $(k, "getter " + p); return 1; }}; }
 export function N(k) { $(k, "new"); }
 export function VAL(k) { return {valueOf() { $(k, "valueOf"); return 1; }, toString() { $(k, "toString"); return "s"; }}; }
 export function KEY(k) { return {toString() { $(k, "key"); return "k" + k; }}; }
@@ -143,7 +150,7 @@ func init() {
 
 func c04Module(rng *Rng, idx int, nHostile, nPure int, keyPrefix string) (src string, keys []string) {
 	var b strings.Builder
-	b.WriteString("import {F, N, VAL, KEY, GET, ITER, TAG, HAS, INST, EXT, PROXY} from \"./helpers.mjs\";\n")
+	b.WriteString("import {F, N, VAL, KEY, GET, GETP, ITER, TAG, HAS, INST, EXT, PROXY} from \"./helpers.mjs\";\n")
 	b.WriteString(fmt.Sprintf("$(\"%sm%d\", \"start\");\n", keyPrefix, idx))
 	type st struct{ s string }
 	var stmts []string
